@@ -107,7 +107,7 @@ Proof. intros F E. split; [lia | intros _; exact F]. Qed.
 Lemma step_ok s o : op_covered o = true -> Inv s ->
   Inv (fst (step s o)) /\ ev_fresh (snd (step s o)).
 Proof.
-  intros Hc HI. destruct o as [m|ks|N og groups bits sq atol]; cbn [step].
+  intros Hc HI. destruct o as [m|ks|N qs og groups bits sq atol]; cbn [step].
   - cbn [fst snd]. split; [apply apply_mut_inv; assumption | constructor].
   - destruct (maybe_init_ok s HI) as (A & B & D & E & F).
     destruct (access_ok ks (maybe_init s) B) as (A2 & B2 & D2 & E2 & F2).
@@ -115,12 +115,12 @@ Proof.
   - unfold sample_one.
     destruct (maybe_init_ok s HI) as (A & B & D & E & F).
     set (s0 := maybe_init s) in *.
-    assert (H1 : exists s1 e1, (if og then (s0, []) else access (q_order (seq 0 N)) s0) = (s1, e1)
+    assert (H1 : exists s1 e1, (if og then (s0, []) else access (q_order qs) s0) = (s1, e1)
                /\ Fresh s1 /\ ngates s1 = ngates s0 /\ stamp s1 = stamp s0 /\ ev_fresh e1).
     { destruct og.
       - exists s0, []. repeat split; auto. constructor.
-      - destruct (access_ok (q_order (seq 0 N)) s0 B) as (A2 & B2 & D2 & E2 & F2).
-        destruct (access (q_order (seq 0 N)) s0) as [s1 e1]. exists s1, e1. cbn in *. repeat split; auto. }
+      - destruct (access_ok (q_order qs) s0 B) as (A2 & B2 & D2 & E2 & F2).
+        destruct (access (q_order qs) s0) as [s1 e1]. exists s1, e1. cbn in *. repeat split; auto. }
     destruct H1 as (s1 & e1 & Eq & F1 & N1 & S1 & V1). rewrite Eq.
     destruct (access_groups_ok (group_keys N groups [] bits sq atol) s1 F1) as (A3 & B3 & D3 & E3 & F3).
     destruct (access_groups (group_keys N groups [] bits sq atol) s1) as [s2 e2]. cbn [fst snd] in *.
@@ -154,6 +154,37 @@ Lemma uncovered_mutator_stale :
   exists e, In e (snd (run init_st [Query [KPsi 0 0]; Mut bad_mut; Query [KPsi 0 0]]))
             /\ e_hit e = true /\ e_value e <> e_now e.
 Proof. eexists. split; [cbn; right; left; reflexivity|]. cbn. split; [reflexivity|discriminate]. Qed.
+
+(* ---- the conditional-marginal key determines the conditioning event ---------- *)
+Lemma ins_pair_perm p l : Permutation (ins_pair p l) (p :: l).
+Proof.
+  induction l as [|q t IH]; cbn; [apply Permutation_refl|].
+  destruct (Nat.leb (fst p) (fst q)); [apply Permutation_refl|].
+  apply perm_trans with (q :: p :: t); [apply perm_skip; exact IH | apply perm_swap].
+Qed.
+
+Lemma sort_pairs_perm l : Permutation (sort_pairs l) l.
+Proof.
+  induction l as [|p t IH]; cbn; [apply Permutation_refl|].
+  apply perm_trans with (p :: sort_pairs t); [apply ins_pair_perm | apply perm_skip; exact IH].
+Qed.
+
+(* equal keys => same target group and the same set of (qubit, outcome) conditions *)
+Theorem cond_key_determines_event w f w' f' : cond_key w f = cond_key w' f' ->
+  w = w' /\ forall q b, In (q, b) f <-> In (q, b) f'.
+Proof.
+  unfold cond_key. intros H. injection H as Hw Hf. split; [exact Hw|].
+  intros q b. split; intros Hin.
+  - apply (Permutation_in _ (sort_pairs_perm f')). rewrite <- Hf.
+    apply (Permutation_in _ (Permutation_sym (sort_pairs_perm f))). exact Hin.
+  - apply (Permutation_in _ (sort_pairs_perm f)). rewrite Hf.
+    apply (Permutation_in _ (Permutation_sym (sort_pairs_perm f'))). exact Hin.
+Qed.
+
+(* the bits-only key does not: two different conditioning events share a key *)
+Lemma bits_only_key_collides :
+  cond_key_bits [2] [(0, 1)] = cond_key_bits [2] [(1, 1)] /\ cond_key [2] [(0, 1)] <> cond_key [2] [(1, 1)].
+Proof. split; [reflexivity | discriminate]. Qed.
 
 (* ========================================================================= *)
 (* permutation tracker                                                         *)
